@@ -409,6 +409,10 @@ class Interp:
             return bool(v)
         if isinstance(v, FSpec):
             return True
+        from .vals import RLESeq
+        if isinstance(v, RLESeq):
+            from . import builtins_ as B
+            return self.truth(ops.compare("!=", B.rle_len(self, v), 0), label)
         if isinstance(v, Obj):
             r = v.cls.lookup("__bool__")
             if r and r[1] == "method":
@@ -444,6 +448,9 @@ class Interp:
 
     def contains(self, container, item):
         """`item in container` -> host bool or Sym"""
+        from .vals import SymSet
+        if isinstance(container, SymSet):
+            container = container.items
         if isinstance(container, (list, tuple, collections.deque)):
             res = False
             for x in container:
@@ -1251,6 +1258,22 @@ class Interp:
         return self.make_set(items)
 
     def make_set(self, items):
+        from .vals import SymSet
+        items = list(items)
+        if any(isinstance(x, Sym) for x in items):
+            # symbolic elements: canonical list of representatives, forking on equality
+            reps = []
+            for x in items:
+                if isinstance(x, (list, dict, set)):
+                    self.raise_("TypeError", "unhashable type")
+                dup = False
+                for y in reps:
+                    if self.truth(self.eq(x, y), "set-dedupe"):
+                        dup = True
+                        break
+                if not dup:
+                    reps.append(x)
+            return SymSet(reps)
         s = set()
         for x in items:
             self.check_hashable(x)
@@ -1322,6 +1345,9 @@ class Interp:
             z = ops.eq(b, 0)
             if z is True or (z is not False and self.w.branch(z, "divisor==0")):
                 self.raise_("ZeroDivisionError", "division by zero")
+            if op in ("//", "%") and isinstance(b, Sym) and numeric_kind(a) == "int" and numeric_kind(b) == "int":
+                q, r = self.divmod_sym(a, b)
+                return q if op == "//" else r
         try:
             return ops.binop(op, a, b)
         except TypeError as ex:
@@ -1329,6 +1355,21 @@ class Interp:
         except ZeroDivisionError:
             self.raise_("ZeroDivisionError", "division by zero")
         yield
+
+    def divmod_sym(self, a, b):
+        """floor division by a *symbolic* divisor: fresh q, r with the defining property of Python's // and %
+        (a == b*q + r, 0 <= r < b for b > 0, b < r <= 0 for b < 0); avoids non-linear div/mod terms"""
+        from .vals import to_int_term
+        memo = self.w.ghost.setdefault("$divmod", {})
+        key = (to_int_term(a).sexpr(), to_int_term(b).sexpr())
+        if key not in memo:
+            q = self.w.int("q", fresh=True)
+            r = self.w.int("r", fresh=True)
+            at, bt = to_int_term(a), to_int_term(b)
+            self.w.add(ops.mk(at == bt * q.t + r.t))
+            self.w.add(ops.mk(z3.If(bt > 0, z3.And(r.t >= 0, r.t < bt), z3.And(r.t <= 0, r.t > bt))))
+            memo[key] = (q, r)
+        return memo[key]
 
     def ev_Compare(self, e, fr):
         left = yield from self.ev(e.left, fr)
@@ -1678,6 +1719,9 @@ class Interp:
             return _LiveIter(v)
         if isinstance(v, (set, frozenset, dict, range, str, bytes)):
             return _ListIter(list(v))
+        from .vals import SymSet
+        if isinstance(v, SymSet):
+            return _ListIter(list(v.items))
         if isinstance(v, MsgVal):
             return _ListIter(list(v.astuple()))
         if isinstance(v, Obj):
